@@ -97,3 +97,20 @@ Theorem C06_merge_negated_refused :
     merge_step md (k, v2) = SigmaErr E_Value.
 Proof. exact merge_neq_refused. Qed.
 Print Assumptions C06_merge_negated_refused.
+
+(* MEANING PRESERVATION OF THE MERGE PATH.  A written mapping is read as the AND of its entries; an entry
+   is the AND (if `all` is among its modifier identifiers) or the OR of the atoms (key without `all`, value);
+   h says which atoms hold and is arbitrary.  Whenever the merge loop of SigmaDetection.to_plain succeeds
+   on the items' entries (any number of colliding keys, existing key|all scalar or list, any order), the
+   mapping it writes holds under h exactly when all items hold: no term is lost, none is added. *)
+Theorem C06_merge_preserves_meaning :
+  forall h es md, Forall (fun kv => key_wf (fst kv)) es -> merge_all [] es = Ok md ->
+    den_map h (map (fun kv => (fst kv, unwrap1 (snd kv))) md) = den_map h es.
+Proof. exact merge_written_sound. Qed.
+Print Assumptions C06_merge_preserves_meaning.
+
+(* the premise key_wf ("|all" in k agrees with from_mapping's reading of the key) holds for every key
+   to_plain writes *)
+Theorem C06_written_keys_wf : forall f ms, field_ok f -> key_wf (key_of f ms).
+Proof. exact key_of_wf. Qed.
+Print Assumptions C06_written_keys_wf.
